@@ -196,7 +196,7 @@ def register_eviction(ck, op):
     params = {"op": op}
     src = Src()
     R = build_eviction(ck, op, src)
-    rp = harness.make_replayer(ck, "eviction", "eviction_op", lambda s, obs: build_eviction(ck, op, s, obs)["goals"], params)
+    rp = harness.make_replayer(ck, "eviction", "eviction_op", lambda s, obs: build_eviction(ck, op, s, obs), params)
     ck.register_src("eviction_op", params, src)
     for g, f in R["goals"].items():
         ck.prove(f"eviction/{op}/{g}", R["eng"], R["hyps"], f, on_sat=rp, meta={"goal": g})
